@@ -80,6 +80,27 @@ def check_one(rec):
         a, b = solo_view(joint, s), solo_view(r, n - 1 - s)
         if a != b:
             return (('independent', 'permutation', 'differ', ''), 'subset %d decodes differently when the order is reversed' % s)
+    # the same with template compilation on: whatever the compiled form computes for a subset (inside or outside the
+    # scope in which C08 ties it to the specification), it must compute it for that subset ALONE as well - the
+    # comparison is between the compiled joint decode and the compiled solo decodes
+    def compiled(octets):
+        try:
+            return Decoder(compiled_template_cache_max=2).process(bytes(octets)), None
+        except Exception as e:
+            return None, type(e).__name__
+    cj, cj_err = compiled(beh['msg'])
+    solos = [compiled(o) for o in rec['solo']]
+    if cj is None:
+        if not any(err for _, err in solos):
+            return (('independent', 'compiled', 'joint-raises', cj_err), 'with compilation the joint decode raises %s although every subset decodes alone' % cj_err)
+        return None
+    for s, (m, err) in enumerate(solos):
+        if m is None:
+            return (('independent', 'compiled', 'solo-raises', err), 'with compilation subset %d alone raises %s although the joint decode succeeds' % (s, err))
+        a, b = solo_view(cj, s), solo_view(m, 0)
+        for k in ('labels', 'values', 'links'):
+            if a[k] != b[k]:
+                return (('independent', 'compiled', 'solo-vs-joint', k), 'with compilation, subset %d: %s decoded jointly %r, alone %r' % (s, k, a[k], b[k]))
     return None
 
 
